@@ -7,13 +7,12 @@ mod verif_standins {
 
     fn rng() -> rand::rngs::StdRng { rand::rngs::StdRng::seed_from_u64(0x5eed) }
 
-    fn reference<G: Group<Scalar = Scalar>, const N: usize>(p: &PedersenParameters<G, N>, m: &[Scalar; N], r: Scalar) -> G {
-        let mut acc = *p.h() * r;
-        for i in 0..N { acc = acc + p.gs()[i] * m[i]; }
-        acc
-    }
+    // The checks are macros instantiated at concrete groups, not generic functions: a change of trait bounds on the
+    // functions under test must not stop the stand-in from compiling.
 
-    fn check<G: Group<Scalar = Scalar>, const N: usize>() {
+    macro_rules! check { ($G:ty, $n:literal) => {{
+        type G = $G; const N: usize = $n;
+        let reference = |p: &PedersenParameters<G, N>, m: &[Scalar; N], r: Scalar| -> G { let mut acc = *p.h() * r; for i in 0..N { acc = acc + p.gs()[i] * m[i]; } acc };
         let mut rng = rng();
         let p = PedersenParameters::<G, N>::new(&mut rng);
         let rs = vec![Scalar::zero(), Scalar::one(), -Scalar::one(), Scalar::from(2), Scalar::random(&mut rng)];
@@ -52,9 +51,10 @@ mod verif_standins {
         let c2 = Message::new(m2).commit(&p, BlindingFactor::from_scalar(r2)).to_element();
         let sum = Message::new([Scalar::from(7); N]).commit(&p, BlindingFactor::from_scalar(r1 + r2)).to_element();
         assert!(c1 + c2 == sum, "STANDIN pedersen.Commitment::new: not homomorphic");
-    }
+    }} }
     /// C12: h and every generator of a parameter set enter a challenge derived from it (order included)
-    fn check_challenge<G: Group<Scalar = Scalar> + crate::proofs::ChallengeInput, const N: usize>() where PedersenParameters<G, N>: crate::proofs::ChallengeInput {
+    macro_rules! check_challenge { ($G:ty, $n:literal) => {{
+        type G = $G; const N: usize = $n;
         use crate::proofs::ChallengeBuilder;
         let mut rng = rng();
         let p = PedersenParameters::<G, N>::new(&mut rng);
@@ -79,14 +79,14 @@ mod verif_standins {
             gs.swap(0, N - 1);
             assert_ne!(base, chal(&PedersenParameters::from_generators(*p.h(), gs)), "STANDIN pedersen parameters challenge: order of the generators does not enter the challenge");
         }
-    }
+    }} }
     #[test] fn standin_pedersen_params_challenge() {
-        check_challenge::<G1Projective, 1>(); check_challenge::<G1Projective, 2>(); check_challenge::<G1Projective, 5>();
-        check_challenge::<G2Projective, 1>(); check_challenge::<G2Projective, 3>();
+        check_challenge!(G1Projective, 1); check_challenge!(G1Projective, 2); check_challenge!(G1Projective, 5);
+        check_challenge!(G2Projective, 1); check_challenge!(G2Projective, 3);
     }
 
     #[test] fn standin_pedersen_commitment() {
-        check::<G1Projective, 1>(); check::<G1Projective, 2>(); check::<G1Projective, 3>(); check::<G1Projective, 5>();
-        check::<G2Projective, 1>(); check::<G2Projective, 3>();
+        check!(G1Projective, 1); check!(G1Projective, 2); check!(G1Projective, 3); check!(G1Projective, 5);
+        check!(G2Projective, 1); check!(G2Projective, 3);
     }
 }
